@@ -1,4 +1,5 @@
 use crate::common::Emitter;
+pub mod c01;
 pub mod c13;
 pub mod c14;
 pub mod c15;
@@ -22,6 +23,7 @@ pub fn replay(prop: &str, line: &str, em: &mut Emitter) {
         op if op.starts_with("per_") => per::run_case(&toks, em),
         "gsess" => gsess::run_case(&toks, em),
         "decomp" => c08::run_case(&toks, em),
+        "cssp" => c01::run_case(&toks, em),
         "seal" => c16::run_case(&toks, em),
         "ntlm_auth" | "ts_chal" | "ts_validate" => c15::run_case(&toks, em),
         "x224_conn" | "gcc_ccr" | "lic" | "mcs_conn" | "sec_conn" => c05::run_case(&toks, em),
@@ -32,6 +34,7 @@ pub fn replay(prop: &str, line: &str, em: &mut Emitter) {
 pub fn generate(prop: &str, thorough: bool, seed: u64, em: &mut Emitter) {
     let part = part();
     match prop {
+        "C01" => c01::generate(thorough, seed, part, em),
         "C13" => c13::generate(thorough, seed, part, em),
         "C14" => c14::generate(thorough, seed, part, em),
         "C19" => c19::generate(thorough, seed, part, em),
